@@ -32,6 +32,16 @@ CHECKS = {
                 technique="TLA+ spec + TLC exhaustive + behaviour replay + TLC trace validation"),
 }
 
+ROOTS_NOTE = ("Trusted: Go crypto/x509, protobuf, TLC. Virtual time: the harness shifts the stored root timestamps instead of the clock (sound because "
+              "rotation consults only those timestamps and time.Now(); the DER windows are compared with the proto windows at mint time). Instants are judged "
+              "with a tolerance equal to the measured call duration + 2 fine units.")
+CHECKS["C08"] = dict(engine="Roots", design="§4 C08",
+    text="TLC enumerates every order type of the four stored instants relative to now (plus missing / half-missing records) x reinitialise and checks the code-shaped decision and minting against the table as the property states it, and all tick/rotate histories from empty storage on a grid; TLC-generated records and histories are injected into the real RotateRootCertificates under virtual time over six magnitudes (16 s to 10 y) and every recorded call is judged by RootsTrace.tla.",
+    note=ROOTS_NOTE, technique="TLA+ spec (Roots.tla) + TLC exhaustive order-type table and histories + virtual-time replay + TLC trace validation")
+CHECKS["C09"] = dict(engine="Roots", design="§4 C09",
+    text="TLC checks NoReset, successor-validity and node-always-has-a-trusted-valid-chain over every schedule satisfying the two cadence bounds (and shows the stated bound is tight: bound+1 yields a counterexample); TLC-generated schedules run on the real rotation and authorisation code under virtual time, node chain windows taken from the parsed certificates, and the invariants are evaluated by TLC on the recorded trace.",
+    note=ROOTS_NOTE + " TLS verification itself is not executed under virtual time.", technique="TLA+ spec + TLC exhaustive schedules with tightness witness + virtual-time replay + TLC trace validation")
+
 PENDING = {}
 for i in range(1, 21):
     pid = "C%02d" % i
